@@ -35,7 +35,7 @@ def generate(rng, tier):
         sid = 's%d' % i
         r = rng.random()
         if r < 0.25:
-            steps.append({'id': sid, 'op': 'emit', 'what': rng.choice(['key', 'key_protected', 'signature', 'message', 'encrypted']),
+            steps.append({'id': sid, 'op': 'emit', 'what': rng.choice(['key', 'key_protected', 'signature', 'message', 'encrypted', 'encrypted_pass']),
                           'alg': rng.choice(['ed25519', 'p256', 'p521', 'rsa2048' if rng.random() < 0.2 else 'ed25519', 'dsa2048' if rng.random() < 0.1 else 'p384']),
                           'trailing': bytes(rng.randrange(256) for _ in range(rng.choice([0, 1, 3, 17]))).hex(), 'msg': encworld.gen_message_spec(rng)})
         elif r < 0.9:
@@ -186,7 +186,7 @@ def build_foreign(step, ctx, run_seed):
     if kind == 'seipd':
         return 18, b'\x01' + rnd(max(n, 40))
     if kind == 'mdc':
-        return 19, rnd(20)
+        return 19, rnd(r.choice([20, 20, 20, 0, 19, 21, 46]))
     if kind == 'marker':
         return 10, b'PGP'
     if kind == 'trust':
@@ -296,27 +296,41 @@ def execute(case, ctx):
                                    'subkeys': [{'alg': 'cv25519', 'usage': 'E'}, {'alg': 'ed25519', 'usage': 'S'}]}, 'c08' + st['id'])
             what = st['what']
             if what == 'key':
-                data, label = bytes(key), 'private-key'
+                obj, label = key, 'private-key'
                 ctx.probe('own_key_private')
             elif what == 'key_protected':
                 key.protect('c08 pw', C.SymmetricKeyAlgorithm.AES256, C.HashAlgorithm.SHA256)
-                data, label = bytes(key), 'protected-key'
+                obj, label = key, 'protected-key'
                 ctx.probe('own_key_protected')
             elif what == 'signature':
-                data, label = bytes(key.sign('c08', notation={'n@example.org': 'v'}, policy_uri='http://x/')), 'signature'
+                obj, label = key.sign('c08', notation={'n@example.org': 'v'}, policy_uri='http://x/'), 'signature'
                 ctx.probe('own_signature')
             else:
                 msg, _ = encworld.make_message(pgpy, st['msg'])
                 msg |= key.sign(msg)
                 if what == 'encrypted':
                     msg = key.pubkey.encrypt(msg, cipher=C.SymmetricKeyAlgorithm.AES128)
-                    msg = msg.encrypt('pw', sessionkey=None) if False else msg
                     ctx.probe('own_encrypted')
                     label = 'encrypted-message'
+                elif what == 'encrypted_pass':
+                    msg = msg.encrypt('c08 pw', cipher=C.SymmetricKeyAlgorithm.AES256)
+                    ctx.probe('own_encrypted')
+                    label = 'passphrase-encrypted-message'
                 else:
                     ctx.probe('own_message')
                     label = 'message'
-                data = bytes(msg)
+                obj = msg
+            data = bytes(obj)
+            # a copy of the object is the same object as far as its octets go
+            ctx.checked()
+            try:
+                cdata = bytes(copy.copy(obj))
+            except Exception as e:
+                cdata = None
+                ctx.viol('C08:copy-export-raised:%s' % label, 'copy.copy of an own %s cannot be exported: %s: %s' % (label, type(e).__name__, e))
+            if cdata is not None and cdata != data:
+                ctx.viol('C08:copy-export-differs:%s' % label, 'copy.copy of an own %s exports other octets than the object (%d vs %d)'
+                         % (label, len(cdata), len(data)))
             try:
                 pk = split_packets(data)
             except WireError as e:
